@@ -521,6 +521,8 @@ pub fn run(ctx: &mut Ctx) -> Result<(), Violation> {
                 Scoping: formulas with shadowing are compared, through rsbdd, with their alpha-renamed form. BDDEnv::fp: random total maps on the 16 two-variable functions whose orbit reaches a fixed element; returned element and number of closure calls against the index model. \
                 Non-trivial = the body has >= 2 fixed points, or >= 2 real Kleene steps are needed, or nesting / shadowing is present; distinct by canonical rendering."
         .to_string();
+    ctx.rule.push_str(" Wide texts: ");
+    ctx.rule.push_str(crate::widetext::RULE);
     ctx.assume("syntactic monotonicity is sufficient (not necessary) for monotonicity; semantically monotone but syntactically non-monotone bodies are not generated");
     ctx.assume("inner fixed points inside T are evaluated by the reference Kleene iteration when computing T[X:=r]");
 
@@ -677,10 +679,16 @@ pub fn run(ctx: &mut Ctx) -> Result<(), Violation> {
         check_fp_api(&map, start)
     });
     ctx.stage("fp-api-random-total-maps", false, r)?;
+    crate::widetext::stage_counters(ctx, "counter-reachability-chains-beyond-256-applications")?;
+    let wc = ctx.tier.cases(600, 30_000);
+    crate::widetext::stage_padded(ctx, "padded-formulas-beyond-64-128-256-names", wc, false)?;
     Ok(())
 }
 
 pub fn replay(case: &Value) -> Check {
+    if let Some(r) = crate::widetext::replay(case) {
+        return r;
+    }
     match case["kind"].as_str() {
         Some("fix") => check_fix_text(case["text"].as_str().unwrap_or("")).map(|_| ()),
         Some("fix-through-definition") => match (case["main"].as_str(), case["def"].as_str()) {
